@@ -156,10 +156,24 @@ def template_source(prog, chk):
         gb, gt, _ = gets[0]
         # the first test of "is this tag an element" after get_element (directly, through `&el`, or on a moved copy)
         sws = [(sb, st) for (sb, st) in R.discr_switches_of(pt, gt["dest"][0]) if pt.dominates(gb, sb)]
+        # ... or the `?` of a helper that returns an Option (`let el = tag.get_element()?;`)
+        for (tb_, tt_, tc_) in pt.call_sites(lambda c: c.decl_path == "std::ops::Try::branch"):
+            a_ = R.origin_local(pt, tt_["args"][0]) if tt_.get("args") else None
+            if a_ == gt["dest"][0] and tt_.get("dest") and not tt_["dest"][1]:
+                sw_ = R.find_switch_on_discr(pt, tt_["t"], tt_["dest"][0])
+                if sw_:
+                    sws.append((sw_[0], sw_[1]))
         sws = [x for x in sws if not any(y is not x and pt.dominates(y[0], x[0]) for y in sws)]
+        if not sws:
+            chk.undecided("A13.raw-registration", "process_tags", pt.where(ups[0][0], ups[0][1].get("line")), "where process_tags tests whether a tag holds an element (the result of get_element) is not read here")
+            return
         ok = False
         for (sb, st) in sws:
-            some_t = [tgt for v, tgt in st["vals"] if v == 1]
+            sd_ = R.switch_discr_place(pt, sb)
+            # `tag.get_element()?` in a helper that returns an Option: the test is on the ControlFlow of `?`, where
+            # Continue (0) is the element and Break (1) its absence
+            some_v = 0 if (sd_ is not None and str(sd_[1]).startswith(("std::ops::ControlFlow", "core::ops::ControlFlow"))) else 1
+            some_t = [tgt for v, tgt in st["vals"] if v == some_v] or ([st["otherwise"]] if st.get("otherwise") is not None and all(v != some_v for v, _t in st["vals"]) and len(st["vals"]) == 1 else [])
             if some_t:
                 r = pt.reach(some_t, avoid={b for (b, _, _) in ups})
                 ok = not any(b in r for (b, _, _) in gens)
